@@ -205,11 +205,11 @@ theorem compute_inv (s0 : BSt) (l0 : Nat) (r : BSt × CRes) (hd : D s0) (hh : H 
               · simp only [Option.some.injEq] at hr
                 subst hr
                 refine ⟨other _ rfl rfl rfl rfl (fun l h => h) (fun l hl => by simp [upd, hl])
-                  (Or.inr ⟨b, s.now + fadeAt (s.fade x) s.now s.maxFade, by simp [upd], by rw [hbt]; rfl⟩), queuedH _ b _ rfl rfl rfl rfl⟩
+                  (Or.inr ⟨b, s.now + fdOf s x, by simp [upd], by rw [hbt]; rfl⟩), queuedH _ b _ rfl rfl rfl rfl⟩
             · simp only [Option.some.injEq] at hr
               subst hr
               refine ⟨other _ rfl rfl rfl rfl (fun l h => h) (fun l hl => by simp [upd, hl])
-                (Or.inr ⟨b, s.now + fadeAt (s.fade x) s.now s.maxFade, by simp [upd], by rw [hbt]; rfl⟩), queuedH _ b _ rfl rfl rfl rfl⟩
+                (Or.inr ⟨b, s.now + fdOf s x, by simp [upd], by rw [hbt]; rfl⟩), queuedH _ b _ rfl rfl rfl rfl⟩
           | false =>
             simp only [Bool.false_eq_true, if_false, Option.some.injEq] at hr
             subst hr
